@@ -3,7 +3,7 @@
 and write seeded/RESULTS.md from seeded/results/*.json"""
 import os, re, json, shutil, glob
 OUT = "/tmp/seed/out"
-DST = "/verif/seeded"
+DST = os.path.join(os.path.dirname(os.path.dirname(os.path.abspath(__file__))), "seeded")
 NOTES = {
  "C19r4A": "no longer a violation on the current tree: since fix fffe38f (hand-outs capped at the room a table has left) the stale requirement this change creates cannot overfill a table; its demo passes with the change applied",
  "C11r4B": "not covered: needs wager to match + minimum raise to exceed 2^63 (a non-all-in bet above 2^62); the workloads stop at bankrolls around 2^58 because sums of ten such stacks no longer fit an int64 in any implementation, the monitors' included",
